@@ -36,12 +36,21 @@ def _work(args):
             bio = io.BytesIO()
             t.stream(**data()).dump(bio, encoding="utf-8")
             got["dump(fileobj,utf-8)"] = bio.getvalue().decode("utf-8")
-            bio = io.BytesIO()
-            t.stream(**data()).dump(bio, encoding="utf-16")
-            got["dump(fileobj,utf-16)"] = bio.getvalue().decode("utf-16")
+            for enc in ("utf-16", "utf-8-sig", "iso2022_jp", "hz", "utf-32"):
+                bio = io.BytesIO()
+                try:
+                    want = exp.encode(enc)
+                except UnicodeEncodeError:
+                    continue
+                t.stream(**data()).dump(bio, encoding=enc)
+                # compare the bytes: a stateful codec must be flushed exactly once, at the end
+                got[f"dump(fileobj,{enc})"] = exp if bio.getvalue() == want else f"bytes {bio.getvalue()!r} != {want!r}"
+                st = t.stream(**data()); st.enable_buffering(2)
+                bio = io.BytesIO(); st.dump(bio, encoding=enc)
+                got[f"dump(buffered,{enc})"] = exp if bio.getvalue() == want else f"bytes {bio.getvalue()!r} != {want!r}"
             bio = io.BytesIO()
             st = t.stream(**data()); st.enable_buffering(3); st.dump(bio, encoding="latin-1", errors="xmlcharrefreplace")
-            got["dump(buffered,latin-1)"] = bio.getvalue().decode("latin-1")
+            got["dump(buffered,latin-1)"] = exp if bio.getvalue() == exp.encode("latin-1", "xmlcharrefreplace") else repr(bio.getvalue())
             sio = io.StringIO()
             t.stream(**data()).dump(sio)
             got["dump(text fileobj)"] = sio.getvalue()
@@ -70,6 +79,12 @@ def fp(m):
 def run(ck):
     quick = ck.tier == "quick"
     cases = jgen.corpus(ck.seed + 10, *((120, 80, 80, 60) if quick else (3000, 1500, 1500, 1000)))
+    # stateful codecs need non-ASCII text and empty outputs to show a missing flush / doubled mark
+    N, C = J.Name, J.Const
+    jp = [{"s": J.vstr("\u65e5\u672c"), "t": J.vstr("x\u8a9e"), "c": J.vbool(True)}, {"s": J.vstr(""), "t": J.vstr("\u672c"), "c": J.vbool(False)}]
+    for body in ([J.Out(N("s")), J.Text("a"), J.Out(N("t"))], [J.If([N("c")], [[J.Out(N("s"))]])], [J.If([C(False)], [[J.Text("x")]])],
+                 [J.For(J.TName("i"), J.List([C(1), C(2)]), [J.Out(N("t")), J.Out(N("i"))])], [J.Text("k"), J.Out(N("t"))]):
+        cases.append(J.make_case(len(cases) + 1, {"main": J.template(body, False)}, "main", jp))
     obs, r = jrun.spec_results("C10", cases, name="entry", timeout=3000)
     ck.add_tlc(r, f"Jinja.tla ({len(cases)} programs)")
     by_case = {}
